@@ -42,7 +42,8 @@ def directed(rng: random.Random) -> dict:
                        "too_few", "nested", "zero_params", "shadow_outer", "arg_uses_later_param", "param_shadows_global_unsized",
                        "mixed_immediate_and_deferred", "splice_in_nested_scope", "undefined_macro_nested", "macro_and_scope_same_name",
                        "argument_names_later_nearer_label", "named_scope_in_body", "many_applications", "block_declares_name_used_by_body", "block_expanded_several_times",
-                       "defined_inside_a_scope_applied_outside", "label_in_conditional_applied_twice"])
+                       "defined_inside_a_scope_applied_outside", "label_in_conditional_applied_twice",
+                       "redefined_between_applications", "named_like_a_mnemonic"])
     expect_reject = False
     expect_bytes = None
     if kind == "capture_eager":
@@ -68,6 +69,21 @@ def directed(rng: random.Random) -> dict:
             body += [{"k": "scope", "n": "libq", "b": [{"k": "scope", "n": "innerq", "b": inside}, {"k": "call", "n": "put2", "as": [E(0x28)]}]}]
         body += [{"k": "call", "n": "put2", "as": [E(0x30)]}, {"k": "scope", "n": "userq", "b": [{"k": "call", "n": "put2", "as": [E(0x40)]}]},
                  {"k": "block", "b": [{"k": "call", "n": "put2", "as": [E(0x50)]}]}]
+    elif kind == "redefined_between_applications":
+        # a default macro overridden further down (or from a taken conditional): an application expands the definition in force where it stands
+        first = {"k": "macro", "n": "markq", "ps": ["pa"], "b": [db(E("pa"), 0x10)]}
+        second = {"k": "macro", "n": "markq", "ps": ["pa"], "b": [db(E("pa"), 0x20, 0xEA), {"k": "label", "n": "mk"}, {"k": "data", "d": "dw", "es": [E("mk")]}]}
+        how = rng.choice(["plain", "if", "block", "scope", "thrice"])
+        redefinition = {"plain": [second], "if": [{"k": "if", "c": E(1), "t": [second]}], "block": [{"k": "block", "b": [second]}], "scope": [{"k": "scope", "n": "ovq", "b": [second]}],
+                        "thrice": [second, {"k": "call", "n": "markq", "as": [E(5)]}, first]}[how]
+        body += [first, {"k": "call", "n": "markq", "as": [E(1)]}] + redefinition + [{"k": "call", "n": "markq", "as": [E(2)]}, {"k": "block", "b": [{"k": "call", "n": "markq", "as": [E(3)]}]}]
+    elif kind == "named_like_a_mnemonic":
+        # a macro may be named like an instruction (inc, bit, rep ...): followed by ( the word is the macro
+        nm = rng.choice(["inc", "dec", "bit", "rep", "and", "rol", "lda", "sta", "jmp", "nop", "asl", "bra", "INC", "Lda"])
+        body += [{"k": "macro", "n": nm, "ps": ["paddr"], "b": [{"k": "ins", "m": "lda", "shape": "dir", "sz": "w", "e": E("paddr")}, {"k": "ins", "m": "inc", "shape": "imp", "sz": "", "e": None},
+                                                                  {"k": "ins", "m": "sta", "shape": "dir", "sz": "w", "e": E("paddr")}]},
+                 {"k": "call", "n": nm, "as": [E(0x1234)]}, {"k": "ins", "m": "inc", "shape": "dir", "sz": "w", "e": E(0x2000)}, {"k": "call", "n": nm, "as": [E("laterq")]},
+                 {"k": "block", "b": [{"k": "call", "n": nm, "as": [E("laterq", "+", 1)]}]}, {"k": "label", "n": "laterq"}, db(0x60)]
     elif kind == "label_in_conditional_applied_twice":
         # a macro without parameters whose label stands inside a conditional (or a loop / block) of its body: every application has its own
         inner = [{"k": "label", "n": "waitq"}, db(0x2C), {"k": "data", "d": "dw", "es": [E("waitq")]}]
